@@ -9,6 +9,7 @@ ap.add_argument('-k', default='')
 ap.add_argument('--no-build', action='store_true')
 ap.add_argument('--tier', default='quick')
 ap.add_argument('--file', default='/verif/mutants/mutants.json')
+ap.add_argument('--bin', default='/verif/bin/templvet')
 args = ap.parse_args()
 
 env = dict(os.environ, GOFLAGS='-mod=mod', GOPROXY='off', GOSUMDB='off', GOTOOLCHAIN='local')
@@ -42,7 +43,7 @@ for m in muts:
                 print(f"FAIL {m['id']}: variant does not build: {r.stderr[:300]}")
                 fails += 1
                 raise StopIteration
-        r = subprocess.run(['/verif/bin/templvet', '-repo', dst, '-verif', d, '-property', m['property'], '-tier', m.get('tier', args.tier)],
+        r = subprocess.run([args.bin, '-repo', dst, '-verif', d, '-property', m['property'], '-tier', m.get('tier', args.tier)],
                            capture_output=True, text=True, env=env)
         # -verif d: evidence goes to the scratch dir; known findings are copied so that expected ones stay quiet
         out = r.stdout + r.stderr
